@@ -20,3 +20,10 @@ mod light_self_emulation;
 
 #[cfg(not(feature = "truncated-challenges"))]
 pub mod light_aggregator;
+
+/// Verification hook (off by default): the inner-product argument, which is otherwise only
+/// reachable through `LightAggregator`.
+#[cfg(feature = "verif-hooks")]
+pub mod verif_hooks {
+    pub use crate::inner_product_argument::{ipa_prove, ipa_verify};
+}
